@@ -26,9 +26,46 @@ const (
 	opReshuffle
 	opReshard
 	opRepartition
+	// opMulti: ONE invocation applies several redistributing operators to the SAME
+	// source slice value (different partition functions / shard counts), each
+	// followed by its own recorder; the branches are joined by Cogroup.
+	opMulti
 )
 
-var opNames = []string{"Reduce", "Fold", "Cogroup", "Reshuffle", "Reshard", "Repartition"}
+var opNames = []string{"Reduce", "Fold", "Cogroup", "Reshuffle", "Reshard", "Repartition", "Multi"}
+
+// branch is one redistributing operator applied to the shared source in an
+// opMulti program.
+type branch struct {
+	op, n, variant int
+}
+
+var multiNames = []string{"Repartition(f0)+Repartition(f1)", "Repartition(f0)+Repartition(f1)+Repartition(f2)", "Reshuffle+Repartition(f1)",
+	"Repartition(f1)+Reshuffle+Repartition(f0)", "Reshard(n1)+Reshard(n2)+Repartition(f0)", "Repartition(f0)+Repartition(f0)", "Repartition(f2)+Reshard(n1)+Repartition(f1)"}
+
+// multiBranches lists the branches of multi-program m over a source with p shards.
+func multiBranches(m, p int) []branch {
+	n1, n2 := p%4+1, (p+1)%4+1 // both differ from p and from each other
+	switch m {
+	case 0:
+		return []branch{{opRepartition, 0, 0}, {opRepartition, 0, 1}}
+	case 1:
+		return []branch{{opRepartition, 0, 0}, {opRepartition, 0, 1}, {opRepartition, 0, 2}}
+	case 2:
+		return []branch{{opReshuffle, 0, 0}, {opRepartition, 0, 1}}
+	case 3:
+		return []branch{{opRepartition, 0, 1}, {opReshuffle, 0, 0}, {opRepartition, 0, 0}}
+	case 4:
+		return []branch{{opReshard, n1, 0}, {opReshard, n2, 0}, {opRepartition, 0, 0}}
+	case 5:
+		return []branch{{opRepartition, 0, 0}, {opRepartition, 0, 0}}
+	default:
+		return []branch{{opRepartition, 0, 2}, {opReshard, n1, 0}, {opRepartition, 0, 1}}
+	}
+}
+
+// recID is the recorder id of branch b of a run.
+func recID(run, b int) int { return run*8 + b }
 
 // observations made by the WriterFuncs, per run id
 type rec struct {
@@ -62,6 +99,8 @@ func partFn(variant, nshard, v int) int {
 		return v % nshard
 	case 1:
 		return nshard - 1 - (v/2)%nshard
+	case 2:
+		return (v / 3) % nshard
 	default:
 		return 0
 	}
@@ -122,11 +161,11 @@ func (a *adapter1[K]) directShard(ki, n int) int {
 }
 
 type adapter2[A, B any] struct {
-	ka     []A
-	kb     []B
-	ca     func(A) string
-	cb     func(B) string
-	pairs  [][2]int
+	ka    []A
+	kb    []B
+	ca    func(A) string
+	cb    func(B) string
+	pairs [][2]int
 }
 
 func (a *adapter2[A, B]) nkeys() int { return len(a.pairs) }
@@ -224,7 +263,23 @@ func mkType(name string, ad adapter, fold, quick bool) *e2eType {
 		case opCogroup:
 			kj, vj := e2eRows(ad.nkeys(), layout, true)
 			s = bigslice.Cogroup(src, ad.source(q, kj, vj))
-			return bigslice.WriterFunc(s, ad.recorderCogroup(run))
+			return bigslice.WriterFunc(s, ad.recorderCogroup(recID(run, 0)))
+		case opMulti:
+			// every branch is applied to the same slice value src
+			var joined []bigslice.Slice
+			for b, br := range multiBranches(variant, p) {
+				var bs bigslice.Slice
+				switch br.op {
+				case opReshuffle:
+					bs = bigslice.Reshuffle(src)
+				case opReshard:
+					bs = bigslice.Reshard(src, br.n)
+				case opRepartition:
+					bs = bigslice.Repartition(src, ad.repartFn(br.variant))
+				}
+				joined = append(joined, bigslice.WriterFunc(bs, ad.recorder(recID(run, b))))
+			}
+			return bigslice.Cogroup(joined...)
 		case opReshuffle:
 			s = bigslice.Reshuffle(src)
 		case opReshard:
@@ -232,7 +287,7 @@ func mkType(name string, ad adapter, fold, quick bool) *e2eType {
 		case opRepartition:
 			s = bigslice.Repartition(src, ad.repartFn(variant))
 		}
-		return bigslice.WriterFunc(s, ad.recorder(run))
+		return bigslice.WriterFunc(s, ad.recorder(recID(run, 0)))
 	})
 	return t
 }
@@ -242,7 +297,7 @@ func sI(v int) string { return fI(int64(v)) }
 // e2eTypes are created at init (bigslice.Func registration order must be fixed).
 var e2eTypes = []*e2eType{
 	mkType("int", &adapter1[int]{keys: []int{0, 1, -1, 2, 1 << 40, math.MinInt64, 7, 256}, canon: sI}, true, true),
-	mkType("string", &adapter1[string]{keys: []string{"", "a", "b", "ab", "a\x00", "abcde", "ba", "\x00"}, canon: func(s string) string { return s }}, true, true),
+	mkType("string", &adapter1[string]{keys: []string{"", "a", "b", "ab", "a\x00", "abcde", "ba", "\x00", strings.Repeat("k", 33), strings.Repeat("k", 32) + "l", strings.Repeat("long key ", 30)}, canon: func(s string) string { return s }}, true, true),
 	mkType("uint8", &adapter1[uint8]{keys: []uint8{0, 1, 2, 127, 128, 255}, canon: func(v uint8) string { return fU(uint64(v)) }}, false, false),
 	mkType("int16", &adapter1[int16]{keys: []int16{0, -1, 1, -32768, 32767, 256}, canon: func(v int16) string { return fI(int64(v)) }}, false, false),
 	mkType("int64", &adapter1[int64]{keys: []int64{0, 1, -1, 1 << 32, math.MaxInt64, math.MinInt64}, canon: fI}, true, false),
@@ -256,9 +311,9 @@ var e2eTypes = []*e2eType{
 }
 
 type e2eCase struct {
-	t                          *e2eType
+	t                            *e2eType
 	op, p, q, n, layout, variant int
-	local                      bool
+	local                        bool
 }
 
 func (c e2eCase) nout() int {
@@ -282,6 +337,9 @@ func (c e2eCase) execName() string {
 }
 
 func (c e2eCase) String() string {
+	if c.op == opMulti {
+		return fmt.Sprintf("%s/Multi[%s] key=%s source-shards=%d layout=%d", c.execName(), multiNames[c.variant], c.t.name, c.p, c.layout)
+	}
 	return fmt.Sprintf("%s/%s key=%s producers=%d,%d out-shards=%d layout=%d variant=%d", c.execName(), opNames[c.op], c.t.name, c.p, c.q, c.nout(), c.layout, c.variant)
 }
 
@@ -330,8 +388,11 @@ func runE2E(r *ev.Run, cov ev.Coverage) {
 						}
 						cases = append(cases, e2eCase{t: t, op: opReshard, p: p, n: n, layout: layout, local: local})
 					}
-					for variant := 0; variant < 2; variant++ {
+					for variant := 0; variant < 3; variant++ {
 						cases = append(cases, e2eCase{t: t, op: opRepartition, p: p, variant: variant, layout: layout, local: local})
+					}
+					for m := range multiNames {
+						cases = append(cases, e2eCase{t: t, op: opMulti, p: p, variant: m, layout: layout, local: local})
 					}
 				}
 			}
@@ -349,7 +410,7 @@ func runE2E(r *ev.Run, cov ev.Coverage) {
 		budget = 12 * time.Minute
 	}
 	assign := map[string]assignment{} // op|type|key|nout -> shard
-	var runs, notFF, keysChecked, multiShardKeyRuns, agree, agreeOf int
+	var runs, notFF, keysChecked, multiShardKeyRuns, agree, agreeOf, multiRuns, multiBranchesJudged, repartitionRows int
 	perOp := map[string]int{}
 	outcomes := ev.NewCounter()
 	usedShards := ev.NewCounter()
@@ -360,12 +421,18 @@ func runE2E(r *ev.Run, cov ev.Coverage) {
 			break
 		}
 		run := ci + 1
-		var rows []rec
+		nbranch := 1
+		if c.op == opMulti {
+			nbranch = len(multiBranches(c.variant, c.p))
+		}
+		branchRows := make([][]rec, nbranch)
 		var tasks []string
 		failFree := false
 		for attempt := 0; attempt < 3 && !failFree; attempt++ {
 			recMu.Lock()
-			delete(recs, run)
+			for b := 0; b < nbranch; b++ {
+				delete(recs, recID(run, b))
+			}
 			recMu.Unlock()
 			sess := sessLocal
 			if !c.local {
@@ -395,8 +462,10 @@ func runE2E(r *ev.Run, cov ev.Coverage) {
 				failFree = false
 			}
 			recMu.Lock()
-			rows = append([]rec{}, recs[run]...)
-			delete(recs, run)
+			for b := 0; b < nbranch; b++ {
+				branchRows[b] = append([]rec{}, recs[recID(run, b)]...)
+				delete(recs, recID(run, b))
+			}
 			recMu.Unlock()
 		}
 		if runFailed {
@@ -409,162 +478,197 @@ func runE2E(r *ev.Run, cov ev.Coverage) {
 		}
 		runs++
 		perOp[opNames[c.op]]++
-		nout := c.nout()
-		sort.Slice(rows, func(i, j int) bool {
-			if rows[i].key != rows[j].key {
-				return rows[i].key < rows[j].key
-			}
-			if rows[i].val != rows[j].val {
-				return rows[i].val < rows[j].val
-			}
-			return rows[i].shard < rows[j].shard
-		})
-		detail := func(extra ...interface{}) map[string]interface{} {
-			var obs []string
-			for _, x := range rows {
-				obs = append(obs, fmt.Sprintf("shard%d:%q/%d", x.shard, x.key, x.val))
-			}
-			d := map[string]interface{}{"case": c.String(), "observed": obs, "tasks": tasks}
-			for i := 0; i+1 < len(extra); i += 2 {
-				d[fmt.Sprint(extra[i])] = extra[i+1]
-			}
-			return d
+		if c.op == opMulti {
+			multiRuns++
 		}
-		// per operator and executor; the key type is in the detail (a partitioning
-		// bug hits every key type alike)
-		sigBase := fmt.Sprintf("C05/e2e/%s", opNames[c.op])
-		ex := c.execName() + "/"
-		// expected distinct keys (canonical) and how many raw keys map to each
-		ki, vals := e2eRows(c.t.ad.nkeys(), c.layout, false)
-		wantKeys := map[string]int{}
-		reps := map[string]map[int]bool{}
-		addKey := func(k int) {
-			ck := c.t.ad.canonKey(k)
-			wantKeys[ck]++
-			if reps[ck] == nil {
-				reps[ck] = map[int]bool{}
+		// judge applies the oracles of operator op (with nout output shards) to the
+		// rows its recorder observed.
+		judge := func(op, nout, variant int, rows []rec, label string) {
+			sort.Slice(rows, func(i, j int) bool {
+				if rows[i].key != rows[j].key {
+					return rows[i].key < rows[j].key
+				}
+				if rows[i].val != rows[j].val {
+					return rows[i].val < rows[j].val
+				}
+				return rows[i].shard < rows[j].shard
+			})
+			detail := func(extra ...interface{}) map[string]interface{} {
+				var obs []string
+				for _, x := range rows {
+					obs = append(obs, fmt.Sprintf("shard%d:%q/%d", x.shard, x.key, x.val))
+				}
+				d := map[string]interface{}{"case": c.String(), "observed": obs, "tasks": tasks}
+				if label != "" {
+					d["branch"] = label
+				}
+				for i := 0; i+1 < len(extra); i += 2 {
+					d[fmt.Sprint(extra[i])] = extra[i+1]
+				}
+				return d
 			}
-			reps[ck][k] = true
-		}
-		if c.op == opCogroup {
-			for _, k := range ki {
-				if k != c.t.ad.nkeys()-1 {
+			// per operator and executor; the key type is in the detail (a partitioning
+			// bug hits every key type alike)
+			sigBase := fmt.Sprintf("C05/e2e/%s", opNames[op])
+			ex := c.execName() + "/"
+			if c.op == opMulti {
+				// several operators on one source in one invocation
+				sigBase = "C05/e2e/Multi/" + opNames[op]
+			}
+			// expected distinct keys (canonical) and how many raw keys map to each
+			ki, vals := e2eRows(c.t.ad.nkeys(), c.layout, false)
+			wantKeys := map[string]int{}
+			reps := map[string]map[int]bool{}
+			addKey := func(k int) {
+				ck := c.t.ad.canonKey(k)
+				wantKeys[ck]++
+				if reps[ck] == nil {
+					reps[ck] = map[int]bool{}
+				}
+				reps[ck][k] = true
+			}
+			if op == opCogroup {
+				for _, k := range ki {
+					if k != c.t.ad.nkeys()-1 {
+						addKey(k)
+					}
+				}
+				kj, _ := e2eRows(c.t.ad.nkeys(), c.layout, true)
+				for _, k := range kj {
+					addKey(k)
+				}
+			} else {
+				for _, k := range ki {
 					addKey(k)
 				}
 			}
-			kj, _ := e2eRows(c.t.ad.nkeys(), c.layout, true)
-			for _, k := range kj {
-				addKey(k)
+			// sig: violations about a key that has several representations (-0.0/+0.0) get ONE
+			// signature per key type (one root cause), all others are per operator and oracle.
+			sig := func(k, oracle string) string {
+				if len(reps[k]) > 1 {
+					return "C05/e2e/equal-keys-with-different-representation/" + c.t.name
+				}
+				return sigBase + "/" + oracle
 			}
-		} else {
-			for _, k := range ki {
-				addKey(k)
-			}
-		}
-		// sig: violations about a key that has several representations (-0.0/+0.0) get ONE
-		// signature per key type (one root cause), all others are per operator and oracle.
-		sig := func(k, oracle string) string {
-			if len(reps[k]) > 1 {
-				return "C05/e2e/equal-keys-with-different-representation/" + c.t.name
-			}
-			return sigBase + "/" + oracle
-		}
-		// range
-		for _, x := range rows {
-			usedShards.Add(fmt.Sprintf("%d/%d", x.shard, nout))
-			if x.shard < 0 || x.shard >= nout {
-				r.Violate(sigBase+"/"+ex+"shard-out-of-range", fmt.Sprintf("%v: row observed in shard %d of %d", c, x.shard, nout), detail())
-			}
-		}
-		byKey := map[string][]rec{}
-		for _, x := range rows {
-			byKey[x.key] = append(byKey[x.key], x)
-		}
-		if c.op == opRepartition {
-			// every input row exactly once, in the shard the function returned
-			seen := map[int]int{}
+			// range
 			for _, x := range rows {
-				seen[x.val]++
-				if want := partFn(c.variant, nout, x.val); x.shard != want {
-					r.Violate(sigBase+"/"+ex+"row-not-in-the-shard-the-function-returned",
-						fmt.Sprintf("%v: row %d (key %q) is in shard %d, the partition function returned %d", c, x.val, x.key, x.shard, want), detail())
+				usedShards.Add(fmt.Sprintf("%d/%d", x.shard, nout))
+				if x.shard < 0 || x.shard >= nout {
+					r.Violate(sigBase+"/"+ex+"shard-out-of-range", fmt.Sprintf("%v: row observed in shard %d of %d", c, x.shard, nout), detail())
 				}
 			}
-			for _, v := range vals {
-				if seen[v] != 1 {
-					r.Violate(sigBase+"/"+ex+"row-not-exactly-once", fmt.Sprintf("%v: input row %d observed %d times after Repartition", c, v, seen[v]), detail())
+			byKey := map[string][]rec{}
+			for _, x := range rows {
+				byKey[x.key] = append(byKey[x.key], x)
+			}
+			if op == opRepartition {
+				// every input row exactly once, in the shard the function returned
+				seen := map[int]int{}
+				for _, x := range rows {
+					seen[x.val]++
+					if want := partFn(variant, nout, x.val); x.shard != want {
+						r.Violate(sigBase+"/"+ex+"row-not-in-the-shard-the-function-returned",
+							fmt.Sprintf("%v %s: row %d (key %q) is in shard %d, its partition function f%d returned %d", c, label, x.val, x.key, x.shard, variant, want), detail())
+					}
+				}
+				for _, v := range vals {
+					if seen[v] != 1 {
+						r.Violate(sigBase+"/"+ex+"row-not-exactly-once", fmt.Sprintf("%v: input row %d observed %d times after Repartition", c, v, seen[v]), detail())
+					}
+				}
+				outcomes.Add(fmt.Sprintf("repartition:%d:%d", variant, nout))
+				repartitionRows += len(rows)
+				return
+			}
+			// co-location, function-of-key, and exactly-once for aggregations
+			keys := make([]string, 0, len(byKey))
+			for k := range byKey {
+				keys = append(keys, k)
+			}
+			sort.Strings(keys)
+			multi := false
+			for _, k := range keys {
+				xs := byKey[k]
+				keysChecked++
+				shards := map[int]bool{}
+				for _, x := range xs {
+					shards[x.shard] = true
+				}
+				if len(xs) > 1 {
+					multi = true
+				}
+				if len(shards) > 1 {
+					r.Violate(sig(k, ex+"equal-keys-in-several-shards"),
+						fmt.Sprintf("%v: rows with key %q are in %d different output shards", c, k, len(shards)), detail("key", k))
+					continue
+				}
+				sh := xs[0].shard
+				outcomes.Add(fmt.Sprintf("%s|%s|%d->%d", c.t.name, k, nout, sh))
+				ak := fmt.Sprintf("%s|%s|%q|%d", opNames[op], c.t.name, k, nout)
+				if prev, ok := assign[ak]; ok {
+					if prev.shard != sh {
+						r.Violate(sig(k, "shard-of-key-differs-between-runs"),
+							fmt.Sprintf("key %q with %d output shards: shard %d in [%s] but shard %d in [%v]", k, nout, prev.shard, prev.from, sh, c), detail("key", k, "other_run", prev.from))
+					}
+				} else {
+					assign[ak] = assignment{sh, c.String()}
+				}
+				// informational: does the shard equal the direct default-partitioner value?
+				for rk := range reps[k] {
+					agreeOf++
+					if c.t.ad.directShard(rk, nout) == sh {
+						agree++
+					}
+					break
+				}
+				if op == opReduce || op == opFold || op == opCogroup {
+					if len(xs) != 1 {
+						r.Violate(sig(k, ex+"key-emitted-more-than-once"),
+							fmt.Sprintf("%v: key %q is emitted %d times in the whole result", c, k, len(xs)), detail("key", k))
+					}
 				}
 			}
-			outcomes.Add(fmt.Sprintf("repartition:%d:%d", c.variant, nout))
-			continue
-		}
-		// co-location, function-of-key, and exactly-once for aggregations
-		keys := make([]string, 0, len(byKey))
-		for k := range byKey {
-			keys = append(keys, k)
-		}
-		sort.Strings(keys)
-		multi := false
-		for _, k := range keys {
-			xs := byKey[k]
-			keysChecked++
-			shards := map[int]bool{}
-			for _, x := range xs {
-				shards[x.shard] = true
+			if multi {
+				multiShardKeyRuns++
 			}
-			if len(xs) > 1 {
-				multi = true
-			}
-			if len(shards) > 1 {
-				r.Violate(sig(k, ex+"equal-keys-in-several-shards"),
-					fmt.Sprintf("%v: rows with key %q are in %d different output shards", c, k, len(shards)), detail("key", k))
-				continue
-			}
-			sh := xs[0].shard
-			outcomes.Add(fmt.Sprintf("%s|%s|%d->%d", c.t.name, k, nout, sh))
-			ak := fmt.Sprintf("%s|%s|%q|%d", opNames[c.op], c.t.name, k, nout)
-			if prev, ok := assign[ak]; ok {
-				if prev.shard != sh {
-					r.Violate(sig(k, "shard-of-key-differs-between-runs"),
-						fmt.Sprintf("key %q with %d output shards: shard %d in [%s] but shard %d in [%v]", k, nout, prev.shard, prev.from, sh, c), detail("key", k, "other_run", prev.from))
-				}
-			} else {
-				assign[ak] = assignment{sh, c.String()}
-			}
-			// informational: does the shard equal the direct default-partitioner value?
-			for rk := range reps[k] {
-				agreeOf++
-				if c.t.ad.directShard(rk, nout) == sh {
-					agree++
-				}
-				break
-			}
-			if c.op == opReduce || c.op == opFold || c.op == opCogroup {
-				if len(xs) != 1 {
-					r.Violate(sig(k, ex+"key-emitted-more-than-once"),
-						fmt.Sprintf("%v: key %q is emitted %d times in the whole result", c, k, len(xs)), detail("key", k))
+			if op == opReduce || op == opFold || op == opCogroup {
+				for k := range wantKeys {
+					if len(byKey[k]) == 0 {
+						r.Violate(sig(k, ex+"key-not-emitted"), fmt.Sprintf("%v: key %q of the input is not emitted at all", c, k), detail("key", k))
+					}
 				}
 			}
-		}
-		if multi {
-			multiShardKeyRuns++
-		}
-		if c.op == opReduce || c.op == opFold || c.op == opCogroup {
-			for k := range wantKeys {
-				if len(byKey[k]) == 0 {
-					r.Violate(sig(k, ex+"key-not-emitted"), fmt.Sprintf("%v: key %q of the input is not emitted at all", c, k), detail("key", k))
+			for k := range byKey {
+				if wantKeys[k] == 0 {
+					ev.Fatal("harness: observed key %q that is not in the input (%v)", k, c)
 				}
 			}
-		}
-		for k := range byKey {
-			if wantKeys[k] == 0 {
-				ev.Fatal("harness: observed key %q that is not in the input (%v)", k, c)
+			if runs == 1 || (c.op == opCogroup && c.p == 2 && c.q == 3 && !c.local && c.t.name == "string") ||
+				(c.op == opMulti && c.variant == 1 && c.p == 3 && !c.local && c.t.name == "int" && label == "branch 1: Repartition(f1)") {
+				r.Sample(detail())
 			}
-		}
-		if runs == 1 || (c.op == opCogroup && c.p == 2 && c.q == 3 && !c.local && c.t.name == "string") {
-			r.Sample(detail())
+		} // judge
+		if c.op != opMulti {
+			judge(c.op, c.nout(), c.variant, branchRows[0], "")
+		} else {
+			for b, br := range multiBranches(c.variant, c.p) {
+				nout := c.p
+				name := opNames[br.op]
+				switch br.op {
+				case opReshard:
+					nout = br.n
+					name = fmt.Sprintf("Reshard(%d)", br.n)
+				case opRepartition:
+					name = fmt.Sprintf("Repartition(f%d)", br.variant)
+				}
+				multiBranchesJudged++
+				judge(br.op, nout, br.variant, branchRows[b], fmt.Sprintf("branch %d: %s", b, name))
+			}
 		}
 	}
+	cov["e2e_multi_operator_runs"] = multiRuns
+	cov["e2e_multi_operator_branches_judged"] = multiBranchesJudged
+	cov["e2e_repartition_rows_checked"] = repartitionRows
 	cov["e2e_runs"] = runs
 	cov["e2e_runs_per_operator"] = perOp
 	cov["e2e_not_failure_free_skipped"] = notFF
